@@ -828,6 +828,7 @@ void JitAllocator::reset(ResetPolicy reset_policy) noexcept {
 
   JitAllocatorPrivateImpl* impl = static_cast<JitAllocatorPrivateImpl*>(_impl);
   impl->tree.reset();
+  impl->allocation_count = 0;
   size_t pool_count = impl->pool_count;
 
   for (size_t pool_id = 0; pool_id < pool_count; pool_id++) {
